@@ -1,10 +1,628 @@
-// Package c14 holds the runtime monitors for property C14 (see DESIGN.md section 4).
+// Package c14 monitors string interpolation: a quoted literal is interpolated in
+// one left-to-right pass over its own text, substituted text is never scanned
+// again, raw strings are untouched, and every arrangement of markers yields a
+// string (DESIGN.md section 4, C14).
 package c14
 
-import "verif/harness/core"
+import (
+	"fmt"
+	"runtime"
+	"strings"
+	"sync"
+	"sync/atomic"
+
+	"verif/harness/core"
+)
 
 func init() { core.Register("C14", Run) }
 
+// pieces is the alphabet of the exhaustive enumeration (source text form).
+var pieces = []string{"{{", "}}", "{", "}", "a", "x", "tick()", "1+1", " ", `\"`, `\n`}
+
+// valueCfg is one configuration of the substituted values.
+type valueCfg struct {
+	name     string
+	a, x     string
+	tickSelf bool
+}
+
+var valueCfgs = []valueCfg{
+	{"plain", "A", "X", false},
+	{"expr-in-value", "{{tick()}}", "p{{1+1}}q", false},
+	{"self-reproducing", "{{a}}", "<{{x}}>", false},
+	{"close-open", "}}", "{{", false},
+	{"open-close", "{{", "}}", false},
+	{"mutual", "{{x}}", "{{a}}", false},
+	{"half-markers", "}} {{tick()}}", "{{tick()", false},
+	{"tick-returns-marker", "{{", "x}}{{tick()}}", true},
+}
+
+// unescape turns the source form of a piece sequence into the literal's value.
+func unescape(src string) string {
+	src = strings.ReplaceAll(src, `\"`, `"`)
+	return strings.ReplaceAll(src, `\n`, "\n")
+}
+
+// litCase is one literal under test.
+type litCase struct {
+	body string // the text between the quotes as written in the program
+	raw  bool
+}
+
+func (l litCase) source() string {
+	if l.raw {
+		if strings.Contains(l.body, `"`) {
+			return "r'" + l.body + "'"
+		}
+		return `r"` + l.body + `"`
+	}
+	return `"` + l.body + `"`
+}
+
+func (l litCase) value() string {
+	if l.raw {
+		return l.body
+	}
+	return unescape(l.body)
+}
+
+type checker struct {
+	c        *core.Ctx
+	sl       *slots
+	recorded sync.Map // key -> *int64 (violation records written by this process)
+}
+
+func (k *checker) violation(key, what, stream string, idx int, detail interface{}) {
+	v, _ := k.recorded.LoadOrStore(key, new(int64))
+	if atomic.AddInt64(v.(*int64), 1) > 12 {
+		// the defect is established; keep the record files small
+		k.c.Event("violations_not_recorded:"+key, 1)
+		return
+	}
+	k.c.Violation(key, what, stream, idx, detail)
+}
+
+// budgetFor is the node-visit budget of a case. A one-pass interpolator
+// evaluates every expression of the literal once, and an expression has fewer
+// AST nodes than characters, so it needs at most len(literal) visits plus the
+// nodes of the surrounding program (< 64 in every generated program shape).
+func budgetFor(lit string, vals ...string) int64 {
+	n := 8 * len(lit)
+	for _, v := range vals {
+		n += 2 * len(v)
+	}
+	return int64(n + 128)
+}
+
+func trunc(s string, n int) string {
+	if len(s) > n {
+		return s[:n] + "..."
+	}
+	return s
+}
+
+// judge compares one observed execution with the reference.
+//
+//	lit      the literal's value text (after escape processing)
+//	interp   whether the reference interpolates (quoted) or not (raw)
+//	got      the value the literal evaluated to
+//	vars     the preset variables (to re-run a crashing expression on its own)
+func (k *checker) judge(r *runner, stream string, idx int, what string, lit string, interp bool, env *refEnv, res *real, got interface{}, vars map[string]interface{}, detail map[string]interface{}) {
+	c := k.c
+	detail["literal_value"] = lit
+	if res.parseErr != nil {
+		c.Inconclusive("generated program was rejected by the parser: "+res.parseErr.Error(), stream, idx, detail)
+		return
+	}
+	devEnv := env.clone()
+	var ref *refResult
+	if interp {
+		ref = refInterp(lit, env)
+	} else {
+		ref = &refResult{chunks: []string{lit}}
+	}
+	var own []string
+	for _, s := range ref.spans {
+		own = append(own, s.code)
+	}
+	_, foreign := evalOrder(ref.spans, res.evald)
+	if res.panicked {
+		c.Event("outcome.panic", 1)
+		if !strings.Contains(res.panicKey, "stringValueRuntime") {
+			// does one of the evaluated expressions crash on its own, outside
+			// any string? Then the crash belongs to expression evaluation
+			// (property C06), not to interpolation.
+			cand := append(append([]string{}, own...), firstN(res.evald, 32)...)
+			for _, code := range cand {
+				if alone := r.eval(code, vars, 4096, false); alone.panicked && alone.panicKey == res.panicKey {
+					c.Event("panic.in-expression-itself(C06)", 1)
+					if foreign != "" && interp {
+						detail["foreign_expression"] = foreign
+						detail["literal_own_expressions"] = own
+						k.violation("dev:rescan-substituted-text", "text produced by a substitution was scanned again and evaluated ("+what+")", stream, idx, detail)
+					}
+					return
+				}
+			}
+		}
+		detail["panic"] = trunc(res.panicMsg, 1500)
+		k.violation(res.panicKey, "evaluating the string literal panicked ("+what+")", stream, idx, detail)
+		return
+	}
+	var dev *devResult
+	if interp {
+		dev = devInterp(lit, devEnv, 200)
+	}
+	rescanSeen := foreign != "" || (dev != nil && dev.fired["rescan-substituted-text"])
+	if res.exceeded {
+		c.Event("outcome.budget-exceeded", 1)
+		detail["visits"] = res.visits
+		detail["budget"] = r.dbg.budget
+		detail["evaluated_expressions"] = firstN(res.evald, 12)
+		detail["literal_own_expressions"] = own
+		key := "hang:budget-exceeded"
+		if rescanSeen {
+			key = "hang:self-reproducing"
+		}
+		k.violation(key, "node-visit budget exceeded: evaluation of the literal does not finish in one pass ("+what+")", stream, idx, detail)
+		return
+	}
+	if res.err != nil {
+		detail["error"] = res.err.Error()
+		k.violation("diff:eval-error", "evaluating the string literal returned an error ("+what+")", stream, idx, detail)
+		return
+	}
+	gs, ok := got.(string)
+	if !ok {
+		detail["result"] = fmt.Sprintf("%T %v", got, got)
+		k.violation("diff:not-a-string", "the literal did not evaluate to a string ("+what+")", stream, idx, detail)
+		return
+	}
+	okOut := ref.match(gs)
+	okTicks := res.ticks >= env.ticks && res.ticks <= env.ticks+env.ticksHi
+	// which expressions were evaluated: in order, a subsequence of the
+	// literal's own spans, every span with a known value exactly once
+	okEval, _ := evalOrder(ref.spans, res.evald)
+	c.Event("span.evaluated.reference", int64(len(ref.spans)))
+	c.Event("span.evaluated.observed", int64(len(res.evald)))
+	c.Event("tick.calls.observed", int64(res.ticks))
+	if okOut && okTicks && okEval {
+		c.Event("outcome.agree", 1)
+		return
+	}
+	detail["result"] = trunc(gs, 600)
+	detail["reference"] = trunc(ref.String(), 600)
+	detail["tick_calls"] = res.ticks
+	detail["tick_calls_reference"] = fmt.Sprintf("%d..%d", env.ticks, env.ticks+env.ticksHi)
+	detail["evaluated_expressions"] = firstN(res.evald, 12)
+	detail["literal_own_expressions"] = own
+	c.Event("outcome.differ", 1)
+	// name the deviation: (1) the result equals the model with the known
+	// deviations switched on; (2) an expression was evaluated that the literal
+	// does not contain; (3) the deviating model re-scanned substituted text
+	// before it met an expression whose value the reference does not know
+	if dev != nil && dev.outcome == devOutcomeOK && dev.out == gs && dev.ticks == res.ticks && len(dev.fired) > 0 {
+		for sw := range dev.fired {
+			k.violation("dev:"+sw, "result equals the model with the known deviation '"+sw+"' switched on ("+what+")", stream, idx, detail)
+		}
+		return
+	}
+	if interp && rescanSeen {
+		if foreign != "" {
+			detail["foreign_expression"] = foreign
+		}
+		k.violation("dev:rescan-substituted-text", "text produced by a substitution was scanned again ("+what+")", stream, idx, detail)
+		return
+	}
+	switch {
+	case !okOut:
+		cat := "output"
+		if !interp {
+			cat = "raw-string-changed"
+		}
+		k.violation("diff:"+cat, "the literal evaluated to a string different from the reference ("+what+")", stream, idx, detail)
+	case !okTicks:
+		k.violation("diff:side-effect-count", "tick() was called a different number of times than the literal's own expressions call it ("+what+")", stream, idx, detail)
+	default:
+		k.violation("diff:evaluation-order", "the literal's own expressions were not each evaluated once, in order ("+what+")", stream, idx, detail)
+	}
+}
+
+func firstN(s []string, n int) []string {
+	if len(s) > n {
+		return s[:n]
+	}
+	return s
+}
+
+// evalOrder checks the observed list of evaluated expression texts against the
+// literal's own spans. Expressions that fail to parse are never visited, so
+// spans of class fail/unknown may be missing; spans with a known value must
+// appear exactly once, in order. foreign is the first observed text that is
+// not among the remaining own spans at all (text that a substitution produced
+// was evaluated).
+func evalOrder(spans []refSpan, evald []string) (ok bool, foreign string) {
+	ok = true
+	i := 0
+	for _, e := range evald {
+		j := i
+		for j < len(spans) && spans[j].code != e {
+			j++
+		}
+		if j == len(spans) {
+			if foreign == "" {
+				foreign = e
+			}
+			ok = false
+			continue
+		}
+		for ; i < j; i++ {
+			if spans[i].cls == clsExact {
+				ok = false // a span with a known value was skipped
+			}
+		}
+		i = j + 1
+	}
+	for ; i < len(spans); i++ {
+		if spans[i].cls == clsExact {
+			ok = false
+		}
+	}
+	return ok, foreign
+}
+
+func newEnv(a, x string, tickSelf bool) *refEnv {
+	env := &refEnv{vars: map[string]string{"a": a, "x": x}, unknown: map[string]string{}, tickRet: tickText}
+	if tickSelf {
+		env.tickRet = func(int) string { return "{{tick()}}" }
+	}
+	return env
+}
+
+// nontrivial: the reference evaluates at least one span, or a closing marker
+// stands before the first opening one, or the literal is raw and holds a
+// complete span.
+func nontrivial(lit string, raw bool) bool {
+	s := strings.Index(lit, "{{")
+	e := strings.Index(lit, "}}")
+	if s < 0 || e < 0 {
+		return false
+	}
+	if raw {
+		return strings.Contains(lit[s:], "}}")
+	}
+	return true
+}
+
 // Run is the check.
 func Run(c *core.Ctx) {
+	c.Note("rule", "enum: every sequence of <=N pieces (N=5 quick, 6 thorough) over {'{{','}}','{','}','a','x','tick()','1+1',' ','\\\"','\\n'} as quoted and as raw literal x 8 configurations of the preset variables a,x (plain; holding {{tick()}} / {{1+1}}; self-reproducing {{a}}; '}}' / '{{' alone in both orders; mutually reproducing; half markers; tick() returning marker text) - configurations beyond the first only where the reference evaluates an expression that mentions a, x or tick; "+
+		"rand: 5..16 pieces from a pool extended by whole spans ({{a}}, {{x}}, {{tick()}}, {{vh.tick()}}, {{1+1}}, failing spans) with random marker-laden values, as plain statement / assigned / returned from a function; except: literals inside an except clause echoing e.detail/e.error/e.type of an error raised with marker-laden detail; sink: literals inside a sink echoing event state. "+
+		"Oracles: result string == one-pass reference (shape prefix+'#...'+suffix for failing, prefix+anything+suffix for expressions the reference does not know), tick() call count, list of evaluated expression texts (seen by a counting util.ECALDebugger) is the literal's own spans in order, node-visit budget 8*len(literal)+2*len(values)+128, no panic. "+
+		"non-trivial = distinct (literal, form, value configuration) with a '{{' and a '}}' in the literal")
+	c.Note("exhaustive", "true")
+	k := &checker{c: c}
+	k.sl = newSlots(c, workers())
+	k.enum()
+	k.random()
+	k.except()
+	k.sl.close()
+	k.sink()
+}
+
+func workers() int {
+	n := runtime.GOMAXPROCS(0)
+	if n > 4 {
+		n = 4
+	}
+	return n
+}
+
+// enum: the exhaustive stream.
+func (k *checker) enum() {
+	c := k.c
+	const stream = "enum"
+	maxN := c.Pick(5, 6)
+	np := len(pieces)
+	// literal index L enumerates by length, then base-11 value
+	offs := []int{0}
+	pow := 1
+	for n := 0; n <= maxN; n++ {
+		offs = append(offs, offs[len(offs)-1]+pow)
+		pow *= np
+	}
+	NL := offs[len(offs)-1]
+	ncfg := len(valueCfgs)
+	decode := func(L int) string {
+		n := 0
+		for L >= offs[n+1] {
+			n++
+		}
+		i := L - offs[n]
+		parts := make([]string, n)
+		for p := n - 1; p >= 0; p-- {
+			parts[p] = pieces[i%np]
+			i /= np
+		}
+		return strings.Join(parts, "")
+	}
+	var next int64 = -1
+	var wg sync.WaitGroup
+	for g := 0; g < k.sl.n; g++ {
+		wg.Add(1)
+		go func(slot int) {
+			defer wg.Done()
+			r := k.sl.runner(slot)
+			for {
+				L := int(atomic.AddInt64(&next, 1))
+				if L >= NL {
+					return
+				}
+				if c.Replay() && !mineAny(c, stream, L, NL, 2*ncfg) {
+					continue
+				}
+				body := decode(L)
+				for form := 0; form < 2; form++ {
+					lc := litCase{body, form == 1}
+					lit := lc.value()
+					// which configurations matter for this literal
+					relevant := false
+					if !lc.raw {
+						probe := refInterp(lit, newEnv("", "", false))
+						for _, s := range probe.spans {
+							if strings.ContainsAny(s.code, "ax") || strings.Contains(s.code, "tick") {
+								relevant = true
+							}
+						}
+					}
+					for ci := 0; ci < ncfg; ci++ {
+						if ci > 0 && !relevant {
+							continue
+						}
+						idx := (form*ncfg+ci)*NL + L
+						if !c.Take(stream, idx) {
+							continue
+						}
+						k.sl.enter(slot, stream, idx, lc.source())
+						k.one(r, stream, idx, lc, valueCfgs[ci])
+						k.sl.leave(slot)
+					}
+				}
+			}
+		}(g)
+	}
+	wg.Wait()
+}
+
+// mineAny tells whether any of the case indices derived from literal L is
+// selected (replay of a single case: skip the other literals quickly).
+func mineAny(c *core.Ctx, stream string, L, NL, combos int) bool {
+	for k := 0; k < combos; k++ {
+		if c.Mine(stream, k*NL+L) {
+			return true
+		}
+	}
+	return false
+}
+
+func (k *checker) one(r *runner, stream string, idx int, lc litCase, vc valueCfg) {
+	c := k.c
+	lit := lc.value()
+	src := lc.source()
+	vars := map[string]interface{}{"a": vc.a, "x": vc.x}
+	res := r.eval(src, vars, budgetFor(lit, vc.a, vc.x), vc.tickSelf)
+	env := newEnv(vc.a, vc.x, vc.tickSelf)
+	detail := map[string]interface{}{"program": src, "a": vc.a, "x": vc.x, "values": vc.name}
+	if vc.tickSelf {
+		detail["tick_returns"] = "{{tick()}}"
+	}
+	k.judge(r, stream, idx, "values: "+vc.name, lit, !lc.raw, env, res, res.out, vars, detail)
+	if lc.raw {
+		c.Event("case.raw", 1)
+	} else {
+		c.Event("case.quoted", 1)
+	}
+	if nontrivial(lit, lc.raw) {
+		c.Nontrivial(core.Hash64(stream + "|" + src + "|" + vc.name))
+		if idx%7919 == 3 {
+			c.Sample(stream, map[string]interface{}{"program": src, "a": vc.a, "x": vc.x, "result": fmt.Sprint(res.out)})
+		}
+	}
+}
+
+// extended piece pool of the random streams
+var randPieces = []string{"{{", "}}", "{", "}", "a", "x", "tick()", "1+1", " ", `\"`, `\n`,
+	"{{a}}", "{{x}}", "{{tick()}}", "{{vh.tick()}}", "{{1+1}}", "{{ a }}", "{{\\\"{{\\\"}}", "{{}}", "{{{}}", "{{a x}}",
+	"#", "}}}", "{{{", "text", "{{12+30}}", "{{a}}{{x}}", "\\t", "'", "{{ tick() }}"}
+
+var valParts = []string{"{{", "}}", "{", "}", "a", "x", "tick()", "1+1", " ", "{{a}}", "{{x}}", "{{tick()}}", "{{vh.tick()}}",
+	"{{1+1}}", "#", "\"", "\n", "plain", "{{b}}", "}}{{"}
+
+func randValue(r *core.Rand) string {
+	if r.Chance(1, 4) {
+		return "V"
+	}
+	n := r.Range(1, 5)
+	var b strings.Builder
+	for i := 0; i < n; i++ {
+		b.WriteString(valParts[r.Intn(len(valParts))])
+	}
+	return b.String()
+}
+
+func unescapeRand(s string) string {
+	s = unescape(s)
+	return strings.ReplaceAll(s, `\t`, "\t")
+}
+
+func (k *checker) random() {
+	c := k.c
+	const stream = "rand"
+	total := c.Pick(30000, 1500000)
+	c.Parallel(k.sl.n, stream, total, func(slot, idx int) {
+		r := k.sl.runner(slot)
+		rng := c.Rng(stream, idx)
+		n := rng.Range(5, 16)
+		var b strings.Builder
+		for i := 0; i < n; i++ {
+			if rng.Chance(1, 2) {
+				b.WriteString(randPieces[rng.Intn(11)])
+			} else {
+				b.WriteString(randPieces[rng.Intn(len(randPieces))])
+			}
+		}
+		body := b.String()
+		raw := rng.Chance(1, 8)
+		if raw && strings.Contains(body, `"`) && strings.Contains(body, "'") {
+			raw = false
+		}
+		va, vx := randValue(rng), randValue(rng)
+		lit := body
+		var src string
+		if raw {
+			if strings.Contains(body, `"`) {
+				src = "r'" + body + "'"
+			} else {
+				src = `r"` + body + `"`
+			}
+		} else {
+			lit = unescapeRand(body)
+			src = `"` + body + `"`
+		}
+		shape := rng.Intn(3)
+		prog := src
+		switch shape {
+		case 1:
+			prog = "b := " + src + "\nb"
+		case 2:
+			prog = "func f() {\n    return " + src + "\n}\nf()"
+		}
+		vars := map[string]interface{}{"a": va, "x": vx}
+		k.sl.enter(slot, stream, idx, prog)
+		res := r.eval(prog, vars, budgetFor(lit, va, vx), false)
+		env := newEnv(va, vx, false)
+		detail := map[string]interface{}{"program": prog, "a": va, "x": vx}
+		k.judge(r, stream, idx, "random literal", lit, !raw, env, res, res.out, vars, detail)
+		k.sl.leave(slot)
+		if nontrivial(lit, raw) {
+			c.Nontrivial(core.Hash64(stream + "|" + prog + "|" + va + "|" + vx))
+			if idx%9973 == 1 {
+				c.Sample(stream, map[string]interface{}{"program": prog, "a": va, "x": vx, "result": fmt.Sprint(res.out)})
+			}
+		}
+	})
+}
+
+var exceptPieces = []string{"{{e.detail}}", "{{e.type}}", "{{e.error}}", "{{ e.detail }}", "{{a}}", "{{tick()}}", "}}", "{{", " ", "msg: ", "{{1+1}}", "a", "{", "}"}
+
+// except: error messages echoed back inside an except clause.
+func (k *checker) except() {
+	c := k.c
+	const stream = "except"
+	total := c.Pick(6000, 200000)
+	c.Parallel(k.sl.n, stream, total, func(slot, idx int) {
+		r := k.sl.runner(slot)
+		rng := c.Rng(stream, idx)
+		n := rng.Range(1, 6)
+		var b strings.Builder
+		for i := 0; i < n; i++ {
+			b.WriteString(exceptPieces[rng.Intn(len(exceptPieces))])
+		}
+		body := b.String()
+		va := randValue(rng)
+		if idx < len(valueCfgs) {
+			va = valueCfgs[idx].a
+		}
+		prog := "r := null\ntry {\n    raise(\"T\", a)\n} except e {\n    r := \"" + body + "\"\n}\nr"
+		vars := map[string]interface{}{"a": va}
+		k.sl.enter(slot, stream, idx, prog)
+		res := r.eval(prog, vars, budgetFor(body, va, va, va), false)
+		env := newEnv(va, "", false)
+		delete(env.vars, "x")
+		env.vars["e.detail"] = va
+		env.vars["e.type"] = "T"
+		env.unknown["e.error"] = va // the message text is the implementation's; it echoes the detail
+		detail := map[string]interface{}{"program": prog, "a": va}
+		k.judge(r, stream, idx, "literal in an except clause echoing the error", body, true, env, res, res.out, vars, detail)
+		k.sl.leave(slot)
+		if nontrivial(body, false) {
+			c.Nontrivial(core.Hash64(stream + "|" + body + "|" + va))
+			if idx%997 == 1 {
+				c.Sample(stream, map[string]interface{}{"program": prog, "a": va, "result": fmt.Sprint(res.out)})
+			}
+		}
+	})
+}
+
+var sinkPieces = []string{"{{event.state.v}}", "{{event.state.w}}", "{{event.name}}", "{{ event.state.v }}", "{{tick()}}", "}}", "{{", " ", "got: ", "{{1+1}}", "a", "{{a}}"}
+
+// sink: event state echoed inside a sink. The sink body runs on a pool worker
+// where a panic would kill the process, so the same literal is first
+// evaluated on this goroutine with an equivalent `event` variable; the real
+// sink is only triggered if that did not panic.
+func (k *checker) sink() {
+	c := k.c
+	const stream = "sink"
+	total := c.Pick(300, 6000)
+	for idx := 0; idx < total; idx++ {
+		if !c.Take(stream, idx) {
+			continue
+		}
+		rng := c.Rng(stream, idx)
+		n := rng.Range(1, 5)
+		var b strings.Builder
+		for i := 0; i < n; i++ {
+			b.WriteString(sinkPieces[rng.Intn(len(sinkPieces))])
+		}
+		body := b.String()
+		vv, vw := randValue(rng), randValue(rng)
+		if idx < len(valueCfgs) {
+			vv, vw = valueCfgs[idx].a, valueCfgs[idx].x
+		}
+		mkEnv := func() *refEnv {
+			env := newEnv("A", "", false)
+			delete(env.vars, "x")
+			env.vars["event.state.v"] = vv
+			env.vars["event.state.w"] = vw
+			env.vars["event.name"] = "ev"
+			return env
+		}
+		budget := budgetFor(body, vv, vw, vv, vw) + 256
+		vars := map[string]interface{}{"a": "A", "v": vv, "w": vw}
+		// 1. on this goroutine
+		r := newRunner()
+		pre := "event := {\"name\": \"ev\", \"kind\": \"c14.ev\", \"state\": {\"v\": v, \"w\": w}}\n\"" + body + "\""
+		res := r.eval(pre, vars, budget, false)
+		detail := map[string]interface{}{"program": pre, "v": vv, "w": vw}
+		k.judge(r, stream, idx, "literal echoing event state (outside a sink)", body, true, mkEnv(), res, res.out, vars, detail)
+		if res.panicked || res.exceeded || res.parseErr != nil {
+			c.Event("sink.not-triggered-after-guarded-failure", 1)
+			r.close()
+			continue
+		}
+		// 2. inside a real sink
+		prog := "sink s1\n    kindmatch [\"c14.ev\"],\n{\n    rec(\"" + body + "\")\n}\naddEventAndWait(\"ev\", \"c14.ev\", {\"v\": v, \"w\": w})"
+		c.Begin(0, stream, idx, prog)
+		res = r.eval(prog, vars, budget, false)
+		c.End(0)
+		c.AddEvals(1)
+		detail = map[string]interface{}{"program": prog, "v": vv, "w": vw, "add_event_result": fmt.Sprint(res.out)}
+		var got interface{}
+		if len(res.rec) == 1 {
+			got = res.rec[0]
+			c.Event("sink.executed", 1)
+		} else if !res.exceeded && !res.panicked && res.parseErr == nil && res.err == nil {
+			c.Inconclusive("the sink did not record exactly one value", stream, idx, detail)
+			r.close()
+			continue
+		}
+		k.judge(r, stream, idx, "literal echoing event state inside a sink", body, true, mkEnv(), res, got, vars, detail)
+		r.close()
+		if nontrivial(body, false) {
+			c.Nontrivial(core.Hash64(stream + "|" + body + "|" + vv + "|" + vw))
+			if idx%97 == 1 {
+				c.Sample(stream, map[string]interface{}{"program": prog, "v": vv, "w": vw, "recorded": res.rec})
+			}
+		}
+	}
 }
